@@ -198,6 +198,47 @@ def extra_obligations(mods, tier, seed):
                 if len(ticks) != nl or any(t > first_user for t in ticks):
                     bad.append({"lcds": nl, "buttons": nb, "tick_calls_in_loop": len(ticks), "problem": "each animated display is ticked exactly once per pass, before user code",
                                 "loop": loop[:500]})
+    # every animate() statement owns its state variable, ticked by the helper of its own style - wherever the statements sit
+    t1 = time.time()
+    bad2, n2 = [], 0
+    STY = ["scroll", "blink", "typewriter", "bounce"]
+    shapes = {
+        "straight": lambda a, b: f"d.animate('{a}', 0, 'hello world', speed_ms=0)\nd.animate('{b}', 1, 'abc', speed_ms=0)\n",
+        "if-else": lambda a, b: f"c = 1\nif c > 0:\n    d.animate('{a}', 0, 'hello world', speed_ms=0)\nelse:\n    d.animate('{b}', 0, 'hello world', speed_ms=0)\n",
+        "if-elif-else": lambda a, b: f"c = 1\nif c > 1:\n    d.animate('{a}', 0, 'hi', speed_ms=0)\nelif c > 0:\n    d.animate('{b}', 1, 'yo', speed_ms=0)\nelse:\n    d.animate('{a}', 1, 'zz', speed_ms=0)\n",
+        "nested-if": lambda a, b: f"c = 1\nif c > 0:\n    if c > 5:\n        d.animate('{a}', 0, 'hello', speed_ms=0)\n    else:\n        d.animate('{b}', 0, 'hello', speed_ms=0)\n",
+        "before-and-in-branch": lambda a, b: f"c = 1\nd.animate('{a}', 0, 'first', speed_ms=0)\nif c > 0:\n    d.animate('{b}', 1, 'second', speed_ms=0)\n",
+    }
+    for sname, mk in shapes.items():
+        for a in STY:
+            for b in STY:
+                src = head + "d = LCD(rs=22, en=23, d4=24, d5=25, d6=26, d7=27)\n" + mk(a, b) + "while True:\n    sleep(5)\n"
+                n2 += 1
+                try:
+                    cpp = E.emit(P.parse(src))
+                except Exception as ex:
+                    bad2.append({"shape": sname, "styles": [a, b], "error": f"{type(ex).__name__}: {ex}"})
+                    continue
+                n_stmt = src.count(".animate(")
+                starts = re.findall(r"__redu_lcd_start_(\w+?)\((__redu_lcd_anim_\w+)", cpp) or re.findall(r"__redu_lcd_(?:start|begin)_(\w+?)\(\s*(__redu_lcd_anim_\w+)", cpp)
+                ticks = re.findall(r"__redu_lcd_tick_(\w+?)\((__redu_lcd_anim_\w+)", cpp[cpp.index("void loop()"):])
+                svars = sorted(set(re.findall(r"__redu_lcd_animation_state (__redu_lcd_anim_\w+);", cpp)))
+                by_var = {}
+                for style, var in ticks:
+                    by_var.setdefault(var, []).append(style)
+                probs = []
+                if len(svars) != n_stmt:
+                    probs.append(f"{n_stmt} animate statements share {len(svars)} state variable(s)")
+                for var, styles in by_var.items():
+                    if len(styles) != 1:
+                        probs.append(f"{var} is ticked {len(styles)} times per pass ({styles})")
+                if sorted(by_var) != svars:
+                    probs.append(f"state variables {svars} vs ticked variables {sorted(by_var)}")
+                if probs:
+                    bad2.append({"shape": sname, "styles": [a, b], "problems": probs, "script": src})
+    out.append({"name": "C18/arms/each-animate-statement-owns-its-state", "status": "discharged" if not bad2 else "sat", "backend": "enum",
+                "where": f"{n2} (placement shape, style, style) combinations: one state variable per animate() statement, each ticked exactly once per pass",
+                "time": round(time.time() - t1, 3), "replay": {"bad": bad2[:3]}, "replay_confirmed": bool(bad2)})
     out.append({"name": "C18/arms/one-tick-per-pass-before-user-code", "status": "discharged" if not bad else "sat", "backend": "enum",
                 "where": f"{n} (animated displays, buttons, body shape) combinations: LCDTick nodes head loop_body; loop() calls each tick helper once, first",
                 "time": round(time.time() - t0, 3), "replay": {"bad": bad[:3]}, "replay_confirmed": bool(bad)})
